@@ -98,6 +98,13 @@ func init() {
 		if rng.Intn(3) == 0 {
 			t.Labels["team"] = "a"
 		}
+		// Trial labels (copied from the Experiment) may carry the very keys primaryPodLabels tests on the pod
+		if rng.Intn(3) == 0 {
+			t.Labels["role"] = pick(rng, []string{"master", "worker"})
+		}
+		if rng.Intn(5) == 0 {
+			t.Labels["idx"] = "0"
+		}
 		t.Spec.PrimaryContainerName = pick(rng, []string{"main", "main", "training"})
 		t.Spec.Objective = &commonv1beta1.ObjectiveSpec{Type: pick(rng, []commonv1beta1.ObjectiveType{commonv1beta1.ObjectiveTypeMaximize, commonv1beta1.ObjectiveTypeMinimize}), ObjectiveMetricName: "acc"}
 		metricNames := "acc"
